@@ -10,7 +10,7 @@ from .base import gen_program, viol, shrink_program
 ID = "C14"
 LEVEL = "exploration"
 TIERS = {"quick": {"cases": 2200, "wall": 100, "min_nontrivial": 1200},
-         "thorough": {"cases": 60000, "wall": 1800, "min_nontrivial": 30000}}
+         "thorough": {"cases": 60000, "wall": 1800, "min_nontrivial": 12000}}
 RULE = ("generator -> valid program P (one statement per line); C-preprocessor lines drawn from #if/#ifdef/#ifndef/"
         "#elif/#else/#endif, #include \"f\" and <f>, #define (object-like, function-like, empty body, string bodies), "
         "#undef, #line, line markers '# n \"f\" flags', #error, #warning, the null directive; with blanks before/after "
